@@ -210,7 +210,7 @@ def _batch(args):
 
 
 def validate(cases, procs=8, timeout=1800):
-    per = max(10, len(cases) // procs + 1)
+    per = min(150, max(10, len(cases) // procs + 1))       # CaseRunner's cost is quadratic in the batch length
     jobs = [(cases[i:i + per], list(range(i, min(len(cases), i + per))), timeout) for i in range(0, len(cases), per)]
     rj, par, states = [], {}, 0
     with cf.ThreadPoolExecutor(max_workers=procs) as ex:
